@@ -205,7 +205,7 @@ def prepare_evo_aspirate_dispense_parameters(
 
     if arm is None:
         raise ValueError("Missing required paramter: arm")
-    if not arm == 0 and not arm == 1:
+    if not isinstance(arm, int) or (not arm == 0 and not arm == 1):
         raise ValueError("Parameter arm has to be 0 (LiHa 1) or 1 (LiHa 2).")
 
     return wells_list, labware_position, volume_list, liquid_class, tecan_tips
@@ -483,7 +483,7 @@ def prepare_evo_wash_parameters(
 
     if arm is None:
         raise ValueError("Missing required paramter: arm")
-    if not arm == 0 and not arm == 1:
+    if not isinstance(arm, int) or (not arm == 0 and not arm == 1):
         raise ValueError("Parameter arm has to be 0 (LiHa 1) or 1 (LiHa 2).")
 
     if waste_vol is None:
